@@ -60,3 +60,64 @@ fn failed_xorb_uploads_are_reported_by_some_session_call() {
     let all_ok = outcome.iter().all(|(_, ok)| *ok);
     assert!(!all_ok, "C16 violated: xorb uploads failed (store directory was unusable) but every session call reported success: {outcome:?}");
 }
+
+fn xorb_names(dir: &std::path::Path) -> Vec<String> {
+    let mut v: Vec<String> = std::fs::read_dir(dir)
+        .map(|rd| rd.flatten().map(|e| e.file_name().to_string_lossy().into_owned()).filter(|n| n.starts_with("default.")).collect())
+        .unwrap_or_default();
+    v.sort();
+    v
+}
+
+/// One session over `data` fed in one go; returns (call, ok) for add_data / finish / finalize.
+fn run_session(rt: &Arc<ThreadPool>, cas: std::path::PathBuf, data: Vec<u8>, plant: Option<String>) -> Vec<(String, bool)> {
+    let rt2 = rt.clone();
+    rt.external_run_async_task(async move {
+        let mut calls = Vec::new();
+        let session = FileUploadSession::new(TranslatorConfig::local_config(&cas).unwrap(), rt2, None).await.unwrap();
+        if let Some(name) = plant {
+            // fault on exactly one store call: the put of this xorb finds a directory in its place and fails
+            let d = cas.join("xet").join("xorbs").join("xorbs");
+            std::fs::create_dir_all(d.join(name)).unwrap();
+        }
+        let mut c = session.start_clean("f".to_owned());
+        let r = c.add_data(&data).await;
+        calls.push(("add_data".to_owned(), r.is_ok()));
+        if r.is_ok() {
+            let r = c.finish().await;
+            calls.push(("finish".to_owned(), r.is_ok()));
+            if r.is_ok() {
+                let r = session.finalize().await;
+                calls.push(("finalize".to_owned(), r.is_ok()));
+            }
+        }
+        calls
+    })
+    .unwrap()
+}
+
+/// "each single call in turn ... with uploads completing in any order": the put of each xorb of a multi-xorb
+/// session fails in turn (the other puts succeed and take longer than the failing one, so the failed task is
+/// usually not the last one to complete); some call of the session must return an error every time.
+#[test]
+fn each_single_xorb_put_failure_is_reported() {
+    std::env::set_var("HF_XET_MAX_XORB_BYTES", (512 * 1024).to_string());
+    let rt = Arc::new(ThreadPool::new().unwrap());
+    let data = rand_bytes(77, 3 * 1024 * 1024);
+    let reference = tempfile::tempdir().unwrap();
+    let calls = run_session(&rt, reference.path().join("cas"), data.clone(), None);
+    assert!(calls.iter().all(|(_, ok)| *ok), "replay set-up: the fault-free session must succeed: {calls:?}");
+    let names = xorb_names(&reference.path().join("cas").join("xet").join("xorbs").join("xorbs"));
+    assert!(names.len() >= 3, "replay set-up: the session must upload several xorbs (got {})", names.len());
+    let mut bad = Vec::new();
+    for name in &names {
+        for round in 0..3 {
+            let tmp = tempfile::tempdir().unwrap();
+            let calls = run_session(&rt, tmp.path().join("cas"), data.clone(), Some(name.clone()));
+            if calls.iter().all(|(_, ok)| *ok) {
+                bad.push((name.clone(), round, calls));
+            }
+        }
+    }
+    assert!(bad.is_empty(), "C16 violated: the put of one xorb failed (a directory was in its place) but every session call reported success (xorb, round, calls): {bad:?}");
+}
